@@ -10,7 +10,9 @@
 EXTENDS Integers, FiniteSets
 
 \* may the bug strike in a cycle that begins in mode mb and ends in mode ma with the LCD state lcd?
-MayCorrupt(lcd, mb, ma) == lcd /\ (mb = 2 \/ ma = 2)
+\* The CPU acts first in a machine cycle and the PPU steps after it: what counts is the mode the cycle begins in.
+\* (A cycle that only *ends* in mode 2 - the first cycle of a line, the last cycle of line 153 - is not exposed.)
+MayCorrupt(lcd, mb, ma) == lcd /\ mb = 2
 
 \* is a change of OAM byte i to value new explained by this cycle's activity?
 \* writes: set of <<index, value>> CPU writes; dmaActive: an OAM DMA was running in this cycle
